@@ -106,16 +106,16 @@ func c08Setup(t *testing.T, tr *tracer) (*c08Fix, sdk.Context) {
 		f.pools = append(f.pools, p.PoolID)
 		f.poolMod[p.PoolID] = p.ModuleName
 	}
-	rp := func(id uint64, uopt, base, s1, s2 string, stable bool, sb, ss1, ss2, ltv, lt, pen, bonus, rf string, c uint64, iso bool, eltv string) {
+	rp := func(id uint64, uopt, base, s1, s2 string, stable bool, sb, ss1, ss2, ltv, lt, pen, bonus, rf string, c uint64, iso bool, eltv, epen string) {
 		k.SetAssetRatesParams(ctx, lendtypes.AssetRatesParams{AssetID: id, UOptimal: c08Dec(uopt), Base: c08Dec(base), Slope1: c08Dec(s1), Slope2: c08Dec(s2),
 			EnableStableBorrow: stable, StableBase: c08Dec(sb), StableSlope1: c08Dec(ss1), StableSlope2: c08Dec(ss2), Ltv: c08Dec(ltv),
 			LiquidationThreshold: c08Dec(lt), LiquidationPenalty: c08Dec(pen), LiquidationBonus: c08Dec(bonus), ReserveFactor: c08Dec(rf),
-			CAssetID: c, IsIsolated: iso, ELtv: c08Dec(eltv), ELiquidationThreshold: c08Dec("0.95"), ELiquidationPenalty: c08Dec("0.01")})
+			CAssetID: c, IsIsolated: iso, ELtv: c08Dec(eltv), ELiquidationThreshold: c08Dec("0.95"), ELiquidationPenalty: c08Dec(epen)})
 	}
-	rp(A[0], "0.75", "0.002", "0.07", "1.25", false, "0.0", "0.0", "0.0", "0.7", "0.75", "0.05", "0.05", "0.2", f.cassets[0], false, "0.9")
-	rp(A[1], "0.5", "0.002", "0.08", "2.0", false, "0.0", "0.0", "0.0", "0.5", "0.55", "0.05", "0.05", "0.2", f.cassets[1], false, "0.9")
-	rp(A[2], "0.8", "0.002", "0.06", "0.6", true, "0.04", "0.04", "0.06", "0.8", "0.85", "0.025", "0.025", "0.1", f.cassets[2], false, "0.92")
-	rp(A[3], "0.65", "0.002", "0.08", "1.5", true, "0.03", "0.05", "0.5", "0.6", "0.65", "0.05", "0.05", "0.2", f.cassets[3], true, "0.9")
+	rp(A[0], "0.75", "0.002", "0.07", "1.25", false, "0.0", "0.0", "0.0", "0.7", "0.75", "0.05", "0.05", "0.2", f.cassets[0], false, "0.9", "0.08") // asset 1 (the e-mode pair's asset in): e-mode penalty ABOVE the ordinary one
+	rp(A[1], "0.5", "0.002", "0.08", "2.0", false, "0.0", "0.0", "0.0", "0.5", "0.55", "0.05", "0.05", "0.2", f.cassets[1], false, "0.9", "0.01")
+	rp(A[2], "0.8", "0.002", "0.06", "0.6", true, "0.04", "0.04", "0.06", "0.8", "0.85", "0.025", "0.025", "0.1", f.cassets[2], false, "0.92", "0.01")
+	rp(A[3], "0.65", "0.002", "0.08", "1.5", true, "0.03", "0.05", "0.5", "0.6", "0.65", "0.05", "0.05", "0.2", f.cassets[3], true, "0.9", "0.01")
 	addp := func(in, out uint64, inter bool, outPool uint64, emode bool) uint64 {
 		if err := k.AddLendPairsRecords(ctx, lendtypes.Extended_Pair{AssetIn: in, AssetOut: out, IsInterPool: inter, AssetOutPoolID: outPool, MinUsdValueLeft: 1000000}); err != nil {
 			t.Fatal(err)
@@ -174,6 +174,7 @@ func c08Setup(t *testing.T, tr *tracer) (*c08Fix, sdk.Context) {
 		setPrice(a, ctx, A[j], prices[j], true)
 	}
 	c08LiqSetup(f, ctx) // second-generation liquidation of lend positions is enabled for the lend app
+	c08CloseSetup(t, f, ctx) // a bidder (outside the projection) and the app's reserve for exhausted-collateral closes
 	// ---- configuration for the model
 	for _, id := range append(append([]uint64{}, f.assets...), f.cassets...) {
 		tr.p("cfg asset %d %d", id, f.decimals[id])
@@ -190,7 +191,8 @@ func c08Setup(t *testing.T, tr *tracer) (*c08Fix, sdk.Context) {
 	}
 	for _, id := range A {
 		r, _ := k.GetAssetRatesParams(ctx, id)
-		tr.p("cfg rates %d %s %s %d %s %s", id, r.Ltv.BigInt().String(), r.ELtv.BigInt().String(), r.CAssetID, b2s(r.EnableStableBorrow), b2s(r.IsIsolated))
+		tr.p("cfg rates %d %s %s %d %s %s %s %s", id, r.Ltv.BigInt().String(), r.ELtv.BigInt().String(), r.CAssetID, b2s(r.EnableStableBorrow), b2s(r.IsIsolated),
+			r.LiquidationPenalty.BigInt().String(), r.ELiquidationPenalty.BigInt().String())
 	}
 	for _, m := range k.GetAllAssetToPair(ctx) {
 		var sb strings.Builder
@@ -529,15 +531,29 @@ func TestC08(t *testing.T) {
 				}
 				return myBorrows[cr.intn(len(myBorrows))], true
 			}
-			kind := cr.intn(106) // 100..105: hand-over of a position to a liquidation auction
-			warm := oi < 5       // the first messages of a history supply liquidity
+			// 100..105: hand-over of a position to a liquidation auction; 106..115: a bid on the auction of a handed-over
+			// position; 116..121 RepayWithdraw; 122..126 FundModuleAccounts; 127..129 FundReserveAccounts
+			kind := cr.intn(130)
+			warm := oi < 5 // the first messages of a history supply liquidity
+			var flagged []lendtypes.BorrowAsset
+			for _, b := range borrows {
+				if b.IsLiquidated {
+					flagged = append(flagged, b)
+				}
+			}
+			if len(flagged) > 0 && cr.chance(30) {
+				kind = 106
+			}
+			if len(flagged) == 0 && ((kind >= 106 && kind < 116 && cr.chance(85)) || (len(borrows) > 0 && cr.chance(6))) {
+				kind = 100 // nothing to bid on yet: hand a position over first
+			}
 			if warm {
 				kind = 0
 			}
 			if len(myLends) == 0 && kind >= 14 && kind < 94 && cr.chance(85) {
 				kind = 0
 			}
-			if len(myBorrows) == 0 && kind >= 55 && kind < 86 && cr.chance(80) {
+			if len(myBorrows) == 0 && ((kind >= 55 && kind < 86) || (kind >= 116 && kind < 122)) && cr.chance(80) {
 				kind = 40
 			}
 			nrich := 0
@@ -552,6 +568,61 @@ func TestC08(t *testing.T) {
 			var msg sdk.Msg
 			var line string
 			switch {
+			case kind >= 106 && kind < 116: // MsgPlaceMarketBid on the generation-2 auction of a handed-over position
+				var id uint64
+				switch {
+				case len(flagged) > 0 && !cr.chance(8):
+					id = flagged[cr.intn(len(flagged))].ID
+				case len(borrows) > 0:
+					id = borrows[cr.intn(len(borrows))].ID // not handed over: no auction
+				default:
+					id = uint64(1 + cr.intn(4))
+				}
+				amtClass := []int{0, 0, 0, 1, 1, 2, 2, 3, 4, 0}[cr.intn(10)]
+				line := c08Bid(f, ctx, tr, id, amtClass, int64(5+cr.intn(90)), cr.chance(50))
+				tr.p("op %d %s", dt, line)
+				c08Project(f, ctx, tr)
+				continue
+			case kind >= 116 && kind < 122: // MsgRepayWithdraw
+				b, _ := pickBorrow()
+				msg = lendtypes.NewMsgRepayWithdraw(us, b.ID)
+				line = c08RepayWithdrawLine(f, ctx, un, us, b)
+			case kind >= 122 && kind < 127: // MsgFundModuleAccounts
+				pi := cr.intn(2)
+				pool, _ := k.GetPool(ctx, f.pools[pi])
+				poolID := pool.PoolID
+				asset := pool.AssetData[cr.intn(len(pool.AssetData))].AssetID
+				if cr.chance(10) {
+					asset = f.assets[cr.intn(4)]
+				}
+				if cr.chance(6) {
+					poolID = 3 + uint64(cr.intn(2))
+				}
+				if cr.chance(5) {
+					asset = 40 + uint64(cr.intn(3))
+				}
+				denom := f.idDenom[asset]
+				if cr.chance(12) || denom == "" {
+					denom = f.denoms[cr.intn(8)]
+				}
+				amt := c08FundAmount(cr)
+				msg = lendtypes.NewMsgFundModuleAccounts(poolID, asset, us, sdk.NewCoin(denom, sdk.NewIntFromBigInt(amt)))
+				line = fmt.Sprintf("fundmod %d %d %d %d %s", un, poolID, asset, f.denomID[denom], amt)
+			case kind >= 127: // MsgFundReserveAccounts
+				asset := f.assets[cr.intn(4)]
+				if cr.chance(8) {
+					asset = f.cassets[cr.intn(4)]
+				}
+				if cr.chance(5) {
+					asset = 40 + uint64(cr.intn(3))
+				}
+				denom := f.idDenom[asset]
+				if cr.chance(12) || denom == "" {
+					denom = f.denoms[cr.intn(8)]
+				}
+				amt := c08FundAmount(cr)
+				msg = lendtypes.NewMsgFundReserveAccounts(asset, us, sdk.NewCoin(denom, sdk.NewIntFromBigInt(amt)))
+				line = fmt.Sprintf("fundreserve %d %d %d %s", un, asset, f.denomID[denom], amt)
 			case kind >= 100: // MsgLiquidateInternalKeeper{LiqType 1}: LiquidateIndividualBorrow -> UpdateLockedBorrows
 				b, _ := pickBorrow()
 				if len(borrows) > 0 && cr.chance(60) { // prefer the open position with the worst ratio
@@ -572,7 +643,7 @@ func TestC08(t *testing.T) {
 						}
 					}
 				}
-				if found := !b.IsLiquidated && b.PairID != 0 && cr.chance(50); found { // the collateral asset crashes first (an oracle move of its own)
+				if found := !b.IsLiquidated && b.PairID != 0 && cr.chance(65); found { // the collateral asset crashes first (an oracle move of its own)
 					pr, _ := k.GetLendPair(ctx, b.PairID)
 					if tw, ok := a.MarketKeeper.GetTwa(ctx, pr.AssetIn); ok && tw.Twa > 10 {
 						np := tw.Twa * uint64(20+cr.intn(50)) / 100
